@@ -25,7 +25,7 @@ let parse_name (s : string) : Meta.record_name =
   | "row" -> Meta.RowIndex | "col" -> Meta.ColumnIndex | "rc" -> Meta.ReturnCount | "ri" -> Meta.ReturnIndex
   | "ts" -> Meta.TimeStamp | "its" -> Meta.IsTimeStampInvalid
   | _ ->
-    (match String.split_on_char '~' s with
+    (match Stdlib.String.split_on_char '~' s with
      | ["u"; ns; nm] -> Meta.Unknown (bytes_of_hex ns, bytes_of_hex nm)
      | _ -> failwith ("bad name token " ^ s))
 
@@ -42,7 +42,7 @@ let show_name (n : Meta.record_name) : string =
   | Meta.Unknown (ns, nm) -> "u~" ^ hex_of_bytes ns ^ "~" ^ hex_of_bytes nm
 
 let parse_dtype (s : string) : Meta.data_type =
-  let p = Array.of_list (String.split_on_char '/' s) in
+  let p = Array.of_list (Stdlib.String.split_on_char '/' s) in
   let o f i = if Array.length p > i && p.(i) <> "-" then Some (f p.(i)) else None in
   match p.(0) with
   | "F" -> Meta.DSingle (o f32t_of_tok 1, o f32t_of_tok 2)
@@ -66,15 +66,15 @@ let show_dtype (t : Meta.data_type) : string =
 
 let parse_wproto (s : string) : Meta.record list =
   Stdlib.List.map (fun nt ->
-      match String.index_opt nt '=' with
-      | Some i -> { Meta.r_name = parse_name (String.sub nt 0 i);
-                    r_type = parse_dtype (String.sub nt (i+1) (String.length nt - i - 1)) }
+      match Stdlib.String.index_opt nt '=' with
+      | Some i -> { Meta.r_name = parse_name (Stdlib.String.sub nt 0 i);
+                    r_type = parse_dtype (Stdlib.String.sub nt (i+1) (Stdlib.String.length nt - i - 1)) }
       | None -> failwith ("bad prototype entry " ^ nt))
-    (Stdlib.List.filter (fun x -> x <> "") (String.split_on_char ',' s))
+    (Stdlib.List.filter (fun x -> x <> "") (Stdlib.String.split_on_char ',' s))
 
 let parse_limit (s : string) : Meta.limit_value option =
   if s = "-" then None else
-    let a = String.sub s 1 (String.length s - 1) in
+    let a = Stdlib.String.sub s 1 (Stdlib.String.length s - 1) in
     Some (match s.[0] with
         | 'f' -> Meta.LSingle (f32t_of_tok a)
         | 'd' -> Meta.LDouble (f64t_of_tok a)
@@ -91,15 +91,15 @@ let show_limit (v : Meta.limit_value option) : string =
   | Some (Meta.LInteger z) -> "i" ^ decimal_of_z z
 
 let parse_transform (s : string) : Meta.transform =
-  match Stdlib.List.map f64t_of_tok (String.split_on_char '/' s) with
+  match Stdlib.List.map f64t_of_tok (Stdlib.String.split_on_char '/' s) with
   | [a; b; c; d; e; f; g] -> { Meta.t_rw = a; t_rx = b; t_ry = c; t_rz = d; t_tx = e; t_ty = f; t_tz = g }
   | _ -> failwith "bad transform"
 let show_transform (t : Meta.transform option) : string =
   match t with
   | None -> "-"
-  | Some t -> String.concat "/" (Stdlib.List.map h64 [t.Meta.t_rw; t.Meta.t_rx; t.Meta.t_ry; t.Meta.t_rz; t.Meta.t_tx; t.Meta.t_ty; t.Meta.t_tz])
+  | Some t -> Stdlib.String.concat "/" (Stdlib.List.map h64 [t.Meta.t_rw; t.Meta.t_rx; t.Meta.t_ry; t.Meta.t_rz; t.Meta.t_tx; t.Meta.t_ty; t.Meta.t_tz])
 let parse_dt (s : string) : Meta.date_time =
-  match String.split_on_char '/' s with
+  match Stdlib.String.split_on_char '/' s with
   | [a; b] -> { Meta.dt_gps_time = f64t_of_tok a; dt_atomic = (b = "1") }
   | _ -> failwith "bad date time"
 let show_dt (d : Meta.date_time option) : string =
@@ -115,7 +115,7 @@ let show_fmt (f : Meta.image_format) : string = match f with Meta.Jpeg -> "j" | 
 let opt_map f s = if s = "-" then None else Some (f s)
 
 let parse_call (t : string) : WriterApi.wcall * string list =
-  let parts = String.split_on_char ':' t in
+  let parts = Stdlib.String.split_on_char ':' t in
   let arg i = try Stdlib.List.nth parts i with _ -> "" in
   match Stdlib.List.hd parts with
   | "NEW" -> (WriterApi.NewWriter (bytes_of_hex (arg 1)), parts)
@@ -128,7 +128,7 @@ let parse_call (t : string) : WriterApi.wcall * string list =
   | "IMG" -> (WriterApi.AddImage (bytes_of_hex (arg 1)), parts)
   | "FIN" -> (WriterApi.Finalize, parts)
   | "PT" -> (WriterApi.PcAddPoint (Stdlib.List.map parse_value
-                                     (Stdlib.List.filter (fun x -> x <> "") (String.split_on_char ',' (arg 1)))), parts)
+                                     (Stdlib.List.filter (fun x -> x <> "") (Stdlib.String.split_on_char ',' (arg 1)))), parts)
   | "PFIN" -> (WriterApi.PcFinalize, parts)
   | "PDROP" -> (WriterApi.PcDrop, parts)
   | "PSET" ->
@@ -144,7 +144,7 @@ let parse_call (t : string) : WriterApi.wcall * string list =
       | "fw" -> WriterApi.PfSensorFwVersion (opt_s a)
       | "oguids" -> WriterApi.PfOriginalGuids (if a = "-" then None else
                                                  Some (Stdlib.List.map bytes_of_hex
-                                                         (Stdlib.List.filter (fun x -> x <> "" && x <> "empty") (String.split_on_char ';' a))))
+                                                         (Stdlib.List.filter (fun x -> x <> "" && x <> "empty") (Stdlib.String.split_on_char ';' a))))
       | "temp" -> WriterApi.PfTemperature (opt_map f64t_of_tok a)
       | "hum" -> WriterApi.PfHumidity (opt_map f64t_of_tok a)
       | "pres" -> WriterApi.PfAtmosphericPressure (opt_map f64t_of_tok a)
@@ -152,11 +152,11 @@ let parse_call (t : string) : WriterApi.wcall * string list =
       | "astart" -> WriterApi.PfAcquisitionStart (opt_map parse_dt a)
       | "aend" -> WriterApi.PfAcquisitionEnd (opt_map parse_dt a)
       | "ilim" -> WriterApi.PfIntensityLimits (opt_map (fun a ->
-          match String.split_on_char '/' a with
+          match Stdlib.String.split_on_char '/' a with
           | [x; y] -> { Meta.il_min = parse_limit x; il_max = parse_limit y }
           | _ -> failwith "bad ilim") a)
       | "clim" -> WriterApi.PfColorLimits (opt_map (fun a ->
-          match Stdlib.List.map parse_limit (String.split_on_char '/' a) with
+          match Stdlib.List.map parse_limit (Stdlib.String.split_on_char '/' a) with
           | [a0; a1; b0; b1; c0; c1] -> { Meta.cl_red_min = a0; cl_red_max = a1; cl_green_min = b0; cl_green_max = b1;
                                          cl_blue_min = c0; cl_blue_max = c1 }
           | _ -> failwith "bad clim") a)
@@ -180,7 +180,7 @@ let parse_call (t : string) : WriterApi.wcall * string list =
                                      opt_map bytes_of_hex (arg 5)), parts)
   | "IPIN" | "ISPH" | "ICYL" as k ->
     let fmt = img_format (arg 1) and data = bytes_of_hex (arg 2) and mask = opt_map bytes_of_hex (arg 4) in
-    let p = Array.of_list (String.split_on_char '/' (arg 3)) in
+    let p = Array.of_list (Stdlib.String.split_on_char '/' (arg 3)) in
     let w = n_of_decimal p.(0) and h = n_of_decimal p.(1) in
     let f i = f64t_of_tok p.(i) in
     ((match k with
@@ -201,7 +201,7 @@ let err_of_name (s : string) : Prelude.err_kind =
   | "Invalid" -> Prelude.EInvalid | "Read" -> Prelude.ERead | "Write" -> Prelude.EWrite
   | "NotImpl" -> Prelude.ENotImpl | "Internal" -> Prelude.EInternal | _ -> Prelude.EIo
 
-let show_bounds6 (l : Meta.f64t option list) : string = String.concat "/" (Stdlib.List.map oh64 l)
+let show_bounds6 (l : Meta.f64t option list) : string = Stdlib.String.concat "/" (Stdlib.List.map oh64 l)
 let oz (z : BinNums.coq_Z option) : string = match z with None -> "-" | Some z -> decimal_of_z z
 
 let blob_view (rs : PagedReader.pr option) (b : Meta.blob) : string =
@@ -232,7 +232,7 @@ let raw_view (rs : PagedReader.pr option) (pc : Meta.pointcloud) : string =
          match r with
          | Prelude.Ok (it', QueueReader.Item p) ->
            if !count > 0 then Buffer.add_char buf ';';
-           Buffer.add_string buf (String.concat "," (Stdlib.List.map show_value p));
+           Buffer.add_string buf (Stdlib.String.concat "," (Stdlib.List.map show_value p));
            incr count; loop s' it'
          | Prelude.Ok (_, QueueReader.Done) -> "none"
          | Prelude.Err k -> "e" ^ err_name k
@@ -240,7 +240,7 @@ let raw_view (rs : PagedReader.pr option) (pc : Meta.pointcloud) : string =
        let fin = loop s1 it in
        let txt = Buffer.contents buf in
        Printf.sprintf "n=%d end=%s h=%s%s" !count fin (fnv_string txt)
-         (if String.length txt <= 4000 then " pts=" ^ txt else "")
+         (if Stdlib.String.length txt <= 4000 then " pts=" ^ txt else "")
      | Prelude.Err k -> "new:e" ^ err_name k
      | Prelude.Panic -> "new:P")
 
@@ -248,11 +248,11 @@ let model_view (rs : PagedReader.pr option) (m : MetaFile.file_meta) (blobs : Me
   let root = m.MetaFile.fm_root in
   let b = Buffer.create 1024 in
   Buffer.add_string b (Printf.sprintf "view guid=%s ext=%s cm=%s cr=%s" (hex_of_bytes root.Meta.rt_guid)
-                         (String.concat "," (Stdlib.List.map (fun e -> hex_of_bytes e.Meta.e_namespace ^ "=" ^ hex_of_bytes e.Meta.e_url)
+                         (Stdlib.String.concat "," (Stdlib.List.map (fun e -> hex_of_bytes e.Meta.e_namespace ^ "=" ^ hex_of_bytes e.Meta.e_url)
                                                m.MetaFile.fm_extensions))
                          (show_os root.Meta.rt_coordinate_metadata) (show_dt root.Meta.rt_creation));
   Stdlib.List.iter (fun (pc : Meta.pointcloud) ->
-      let proto = String.concat "," (Stdlib.List.map (fun r -> show_name r.Meta.r_name ^ "=" ^ show_dtype r.Meta.r_type) pc.Meta.pc_prototype) in
+      let proto = Stdlib.String.concat "," (Stdlib.List.map (fun r -> show_name r.Meta.r_name ^ "=" ^ show_dtype r.Meta.r_type) pc.Meta.pc_prototype) in
       let cb = match pc.Meta.pc_cartesian_bounds with
         | None -> "-"
         | Some c -> show_bounds6 [c.Meta.cb_x_min; c.Meta.cb_x_max; c.Meta.cb_y_min; c.Meta.cb_y_max; c.Meta.cb_z_min; c.Meta.cb_z_max] in
@@ -262,19 +262,19 @@ let model_view (rs : PagedReader.pr option) (m : MetaFile.file_meta) (blobs : Me
                                   s.Meta.sb_azimuth_start; s.Meta.sb_azimuth_end] in
       let ib = match pc.Meta.pc_index_bounds with
         | None -> "-"
-        | Some i -> String.concat "/" (Stdlib.List.map oz [i.Meta.ib_row_min; i.Meta.ib_row_max; i.Meta.ib_column_min;
+        | Some i -> Stdlib.String.concat "/" (Stdlib.List.map oz [i.Meta.ib_row_min; i.Meta.ib_row_max; i.Meta.ib_column_min;
                                                            i.Meta.ib_column_max; i.Meta.ib_return_min; i.Meta.ib_return_max]) in
       let il = match pc.Meta.pc_intensity_limits with
         | None -> "-"
         | Some l -> show_limit l.Meta.il_min ^ "/" ^ show_limit l.Meta.il_max in
       let cl = match pc.Meta.pc_color_limits with
         | None -> "-"
-        | Some l -> String.concat "/" (Stdlib.List.map show_limit [l.Meta.cl_red_min; l.Meta.cl_red_max; l.Meta.cl_green_min;
+        | Some l -> Stdlib.String.concat "/" (Stdlib.List.map show_limit [l.Meta.cl_red_min; l.Meta.cl_red_max; l.Meta.cl_green_min;
                                                                    l.Meta.cl_green_max; l.Meta.cl_blue_min; l.Meta.cl_blue_max]) in
       let og = match pc.Meta.pc_original_guids with
         | None -> "-" | Some [] -> "empty"
-        | Some l -> String.concat ";" (Stdlib.List.map hex_of_bytes l) in
-      let meta = String.concat "|" [show_os pc.Meta.pc_name; show_os pc.Meta.pc_description; show_os pc.Meta.pc_sensor_vendor;
+        | Some l -> Stdlib.String.concat ";" (Stdlib.List.map hex_of_bytes l) in
+      let meta = Stdlib.String.concat "|" [show_os pc.Meta.pc_name; show_os pc.Meta.pc_description; show_os pc.Meta.pc_sensor_vendor;
                                     show_os pc.Meta.pc_sensor_model; show_os pc.Meta.pc_sensor_serial;
                                     show_os pc.Meta.pc_sensor_hw_version; show_os pc.Meta.pc_sensor_sw_version;
                                     show_os pc.Meta.pc_sensor_fw_version; og; oh64 pc.Meta.pc_temperature;
@@ -289,7 +289,7 @@ let model_view (rs : PagedReader.pr option) (m : MetaFile.file_meta) (blobs : Me
         | None -> "-"
         | Some v -> Printf.sprintf "%s/%s/%s/%s/%s" (show_fmt v.Meta.vr_blob.Meta.ib_format) (blob_view rs v.Meta.vr_blob.Meta.ib_data)
                       (oblob_view rs v.Meta.vr_mask) (decimal_of_n v.Meta.vr_width) (decimal_of_n v.Meta.vr_height) in
-      let fl l = String.concat "/" (Stdlib.List.map h64 l) in
+      let fl l = Stdlib.String.concat "/" (Stdlib.List.map h64 l) in
       let pr = match im.Meta.im_projection with
         | None -> "-"
         | Some (Meta.PPinhole p) ->
@@ -304,7 +304,7 @@ let model_view (rs : PagedReader.pr option) (m : MetaFile.file_meta) (blobs : Me
           Printf.sprintf "cyl/%s/%s/%s/%s/%s/%s" (show_fmt p.Meta.ci_blob.Meta.ib_format) (blob_view rs p.Meta.ci_blob.Meta.ib_data)
             (oblob_view rs p.Meta.ci_mask) (decimal_of_n p.Meta.ci_width) (decimal_of_n p.Meta.ci_height)
             (fl [p.Meta.ci_radius; p.Meta.ci_principal_y; p.Meta.ci_pixel_width; p.Meta.ci_pixel_height]) in
-      let meta = String.concat "|" [show_os im.Meta.im_name; show_os im.Meta.im_description; show_os im.Meta.im_pointcloud_guid;
+      let meta = Stdlib.String.concat "|" [show_os im.Meta.im_name; show_os im.Meta.im_description; show_os im.Meta.im_pointcloud_guid;
                                     show_os im.Meta.im_sensor_vendor; show_os im.Meta.im_sensor_model; show_os im.Meta.im_sensor_serial;
                                     show_transform im.Meta.im_transform; show_dt im.Meta.im_acquisition] in
       Buffer.add_string b (Printf.sprintf " # im g=%s vr=%s pr=%s meta=%s" (show_os im.Meta.im_guid) vr pr meta)) m.MetaFile.fm_images;
@@ -338,8 +338,8 @@ let run_wapi (toks : string list) : string =
            skipping := false;
            let gen_xml (_ : MetaFile.file_meta) : BinNums.coq_N list Prelude.res =
              match parts with
-             | _ :: x :: _ when String.length x > 0 && x.[0] = '!' ->
-               Prelude.Err (err_of_name (String.sub x 1 (String.length x - 1)))
+             | _ :: x :: _ when Stdlib.String.length x > 0 && x.[0] = '!' ->
+               Prelude.Err (err_of_name (Stdlib.String.sub x 1 (Stdlib.String.length x - 1)))
              | _ :: x :: _ -> Prelude.Ok (bytes_of_hex x)
              | _ -> Prelude.Ok [] in
            let meta_before = WriterApi.ws_meta !st in
@@ -369,7 +369,7 @@ let run_wapi (toks : string list) : string =
     let view = match !last_meta with
       | None -> "nofin"
       | Some m -> model_view rs m (Stdlib.List.rev !blobs) in
-    String.concat " " (Stdlib.List.rev !outs) ^ " | " ^ dev_summary d ^ " | " ^ view
+    Stdlib.String.concat " " (Stdlib.List.rev !outs) ^ " | " ^ dev_summary d ^ " | " ^ view
   | Prelude.Err k -> "new:e" ^ err_name k ^ " | " ^ dev_summary d1
   | Prelude.Panic -> "new:P"
 
